@@ -383,6 +383,44 @@ def _cmp_key(e: ast.AST):
     return (rank, ast.unparse(e))
 
 
+def _simplify_not(tree: ast.AST):
+    """`not (a is None)` -> `a is not None`, `not (a == b)` -> `a != b`, `not not x` stays (truthiness)"""
+    class T(ast.NodeTransformer):
+        def visit_UnaryOp(self, n):
+            self.generic_visit(n)
+            # (== / != are left alone: `not a == b` calls __eq__, `a != b` calls __ne__ - different methods for user classes)
+            if isinstance(n.op, ast.Not) and isinstance(n.operand, ast.Compare) and len(n.operand.ops) == 1 and \
+                    type(n.operand.ops[0]) in (ast.Is, ast.IsNot, ast.In, ast.NotIn):
+                return _negate(n.operand)
+            return n
+    T().visit(tree)
+
+
+def _fold_constants(tree: ast.AST):
+    """`A if True else B` -> A, `if True: S else: T` -> S, `not True` -> False (constants appear when a helper called with a literal
+    flag is inlined)"""
+    class T(ast.NodeTransformer):
+        def visit_UnaryOp(self, n):
+            self.generic_visit(n)
+            if isinstance(n.op, ast.Not) and isinstance(n.operand, ast.Constant) and isinstance(n.operand.value, bool):
+                return ast.copy_location(ast.Constant(value=not n.operand.value), n)
+            return n
+
+        def visit_IfExp(self, n):
+            self.generic_visit(n)
+            if isinstance(n.test, ast.Constant) and isinstance(n.test.value, bool):
+                return n.body if n.test.value else n.orelse
+            return n
+
+        def visit_If(self, n):
+            self.generic_visit(n)
+            if isinstance(n.test, ast.Constant) and isinstance(n.test.value, bool):
+                blk = n.body if n.test.value else n.orelse
+                return blk if blk else ast.copy_location(ast.Pass(), n)
+            return n
+    T().visit(tree)
+
+
 def _canonical_comparisons(tree: ast.AST):
     """single comparisons with <, <=, >, >=, ==, != get a canonical operand order (complex expression left, constant right, ties by text),
     so that `a < b` and `b > a` are the same construct for every rule.  Comparisons with None and chained comparisons are left alone."""
@@ -405,6 +443,7 @@ def _canonical_statements(tree: ast.AST):
        v = E ; return v                ->  return E            (v a plain local used nowhere else)
        x = [] ; for t in it: x.append(e)  ->  x = [e for t in it]   (x not used in e / it)
        if c: ...return|raise|continue|break  else: B   ->   if c: ...   followed by B"""
+    import copy as _copy
     for fn in [n for n in ast.walk(tree) if isinstance(n, (ast.FunctionDef, ast.AsyncFunctionDef))]:
         captured = set()       # names read by nested functions / lambdas (their value may be observed later)
         for sub in ast.walk(fn):
@@ -449,6 +488,31 @@ def _canonical_statements(tree: ast.AST):
                                 out.append(ast.copy_location(ast.Assign(targets=[st.targets[0]], value=ast.copy_location(comp, nxt)), st))
                                 i += 2
                                 continue
+                        # x = x  (left behind by inlining)
+                        if isinstance(st, ast.Assign) and len(st.targets) == 1 and isinstance(st.targets[0], ast.Name) and \
+                                isinstance(st.value, ast.Name) and st.value.id == st.targets[0].id:
+                            i += 1
+                            continue
+                        # T = A if C else B   /   return A if C else B      ->  statement form
+                        if isinstance(st, ast.Assign) and len(st.targets) == 1 and isinstance(st.value, ast.IfExp) and getattr(st, "ann", None) is None:
+                            a1 = ast.copy_location(ast.Assign(targets=[_copy.deepcopy(st.targets[0])], value=st.value.body), st)
+                            a2 = ast.copy_location(ast.Assign(targets=[_copy.deepcopy(st.targets[0])], value=st.value.orelse), st)
+                            out.append(ast.copy_location(ast.If(test=st.value.test, body=[a1], orelse=[a2]), st))
+                            i += 1
+                            continue
+                        if isinstance(st, ast.Return) and isinstance(st.value, ast.IfExp):
+                            r1 = ast.copy_location(ast.Return(value=st.value.body), st)
+                            r2 = ast.copy_location(ast.Return(value=st.value.orelse), st)
+                            out.append(ast.copy_location(ast.If(test=st.value.test, body=[r1], orelse=[]), st))
+                            out.append(r2)
+                            i += 1
+                            continue
+                        # if C: pass else: B   ->   if not C: B
+                        if isinstance(st, ast.If) and st.orelse and all(isinstance(x, ast.Pass) for x in st.body):
+                            st.test, st.body, st.orelse = _negate(st.test), st.orelse, []
+                            out.append(st)
+                            i += 1
+                            continue
                         # else after a terminating body
                         if isinstance(st, ast.If) and st.orelse and st.body and isinstance(st.body[-1], (ast.Return, ast.Raise, ast.Continue, ast.Break)):
                             rest = st.orelse
@@ -461,6 +525,17 @@ def _canonical_statements(tree: ast.AST):
                         i += 1
                     setattr(node, fld, out)
     ast.fix_missing_locations(tree)
+
+
+def _negate(t: ast.AST) -> ast.AST:
+    if isinstance(t, ast.UnaryOp) and isinstance(t.op, ast.Not):
+        return t.operand
+    if isinstance(t, ast.Compare) and len(t.ops) == 1:
+        inv = {ast.Is: ast.IsNot, ast.IsNot: ast.Is, ast.Eq: ast.NotEq, ast.NotEq: ast.Eq, ast.In: ast.NotIn, ast.NotIn: ast.In,
+               ast.Lt: ast.GtE, ast.GtE: ast.Lt, ast.Gt: ast.LtE, ast.LtE: ast.Gt}
+        if type(t.ops[0]) in (ast.Is, ast.IsNot, ast.In, ast.NotIn):
+            return ast.copy_location(ast.Compare(left=t.left, ops=[inv[type(t.ops[0])]()], comparators=t.comparators), t)
+    return ast.copy_location(ast.UnaryOp(op=ast.Not(), operand=t), t)
 
 
 def _as_load(t: ast.AST) -> ast.AST:
@@ -479,6 +554,8 @@ def normalise_tree(tree: ast.AST) -> int:
     Returns the number of statements dropped."""
     removed = 0
     _canonical_receivers(tree)
+    _fold_constants(tree)
+    _simplify_not(tree)
     _canonical_comparisons(tree)
     _canonical_statements(tree)
     for fn in [n for n in ast.walk(tree) if isinstance(n, (ast.FunctionDef, ast.AsyncFunctionDef))]:
@@ -524,6 +601,10 @@ class Model:
                 warnings.simplefilter("ignore")
                 tree = ast.parse(src, filename=str(p))
             mname = PKG if p.stem == "__init__" else f"{PKG}.{p.stem}"
+            from .inline import inline_module_helpers
+            _canonical_receivers(tree)
+            n_inl, log = inline_module_helpers(tree, mname)
+            self.inlined = getattr(self, "inlined", []) + [f"{p.name}: {l}" for l in log]
             self.inert_removed = getattr(self, "inert_removed", 0) + normalise_tree(tree)
             self.modules[mname] = Module(mname, f"{PKG}/{p.name}", src, tree)
         for m in self.modules.values():
